@@ -29,7 +29,7 @@ Definition dec_of_int (n : Z) : Z := n * PREC.
 
 (* ---- rounding ----
    fn round: half = multiplier / 2; remainder = data % multiplier;
-     if |remainder| * 2 >= multiplier          [after the fix: commit "fix: ..."]
+     if |remainder| * 2 >= multiplier   [as of /repo commit b254de50 "fix: Decimal::round at precision 0 ..."]
         { if data.sign() == Negative { data -= multiplier + remainder }
           else { data += multiplier - remainder } }
      else { data -= remainder }                                            *)
